@@ -79,6 +79,8 @@ class FS(Env):
         for name in ("fsync", "rename", "remove", "access"):
             self.add(getattr(os, name), getattr(self, name), None)
         self.add(os.replace, self.rename, None)
+        self.add(os.open, self.os_open, None)  # directory handles for a directory fsync
+        self.add(os.close, lambda a, k: None, None)
         self.add(os.unlink, self.remove, None)
         self.add(os.path.isfile, self.isfile, None)
         self.add(os.path.exists, self.isfile, None)
@@ -127,8 +129,15 @@ class FS(Env):
         self.after(i)
         return FakeFile(self, path, mode)
 
+    def os_open(self, a, k):
+        return FakeFile(self, a[0], "dir")
+
     def fsync(self, a, k):
         fh = a[0]
+        if getattr(fh, "mode", "") == "dir" or fh.path not in self.files:
+            i = self.op("fsync", getattr(fh, "path", "?"))  # directory entry: nothing to track
+            self.after(i)
+            return
         i = self.op("fsync", fh.path)
         r = self.rec(fh.path)
         r[3] = r[2]  # what the OS has is now on disk (unflushed Python buffers are not)
@@ -235,6 +244,7 @@ class FS(Env):
                 return getattr(self._real, name)
         fake_os = _Delegate(
             os, fsync=wrap(self.fsync), rename=wrap(self.rename), replace=wrap(self.rename),
+            open=wrap(self.os_open), close=lambda fd: None,
             remove=wrap(self.remove), unlink=wrap(self.remove), access=wrap(self.access),
             path=_Delegate(os.path, isfile=wrap(self.isfile), exists=wrap(self.isfile),
                            realpath=lambda p: p))
